@@ -3,6 +3,9 @@ package main
 import (
 	"fmt"
 	"math/rand"
+	"strings"
+
+	googleproto "google.golang.org/protobuf/proto"
 
 	"github.com/projectcalico/calico/felix/generictables"
 	"github.com/projectcalico/calico/felix/proto"
@@ -36,15 +39,108 @@ func renderOneRule(rr rules.RuleRenderer, r *proto.Rule, ipv uint8, owner rules.
 	return
 }
 
+// setsForFamily: Felix's IP sets are per IP version - the v4 set of an id holds its v4 members, the v6 set its v6 ones.
+func setsForFamily(sets []*polgen.IPSet, ipv uint8) []*polgen.IPSet {
+	var out []*polgen.IPSet
+	want := 4
+	if ipv == 6 {
+		want = 16
+	}
+	for _, s := range sets {
+		c := &polgen.IPSet{ID: s.ID, Type: s.Type, Members: []M{}, MemberStrings: []string{}}
+		for k, m := range s.Members {
+			if a, ok := m["a"].([]int); ok && len(a) == want {
+				c.Members = append(c.Members, m)
+				c.MemberStrings = append(c.MemberStrings, s.MemberStrings[k])
+			}
+		}
+		out = append(out, c)
+	}
+	return out
+}
+
+func hasMixedNets(r *proto.Rule) bool {
+	for _, nets := range [][]string{r.SrcNet, r.NotSrcNet, r.DstNet, r.NotDstNet} {
+		v4, v6 := false, false
+		for _, n := range nets {
+			if strings.Contains(n, ":") {
+				v6 = true
+			} else {
+				v4 = true
+			}
+		}
+		if v4 && v6 {
+			return true
+		}
+	}
+	return false
+}
+
+// mixedRule: a rule without ipVersion whose CIDR match fields mix both families (either family first), so that it is a
+// meaningful rule in the IPv4 table AND in the IPv6 table.
+func mixedRule(rnd *rand.Rand, ipv uint8, sg *polgen.SetGen) *proto.Rule {
+	var r *proto.Rule
+	for {
+		r = randRule(rnd, ipv, sg)
+		if r.IpVersion == 0 && r.Icmp == nil && r.NotIcmp == nil {
+			break
+		}
+	}
+	r.SrcNet, r.NotSrcNet, r.DstNet, r.NotDstNet = nil, nil, nil, nil
+	// IP sets of the rule hold members of one family only; drop them so that both tables can match
+	r.SrcIpSetIds, r.DstIpSetIds, r.SrcNamedPortIpSetIds, r.DstNamedPortIpSetIds, r.DstIpPortSetIds = nil, nil, nil, nil, nil
+	mix := func(neg bool) []string {
+		a := pick(rnd, []string{"10.1.0.0/16", "10.1.2.0/24", "192.168.0.0/30", "172.16.0.0/12"})
+		b := pick(rnd, []string{"fd00:1::/32", "fd00:1:2::/48", "fe80::/10", "2001:db8::/33"})
+		out := []string{a, b}
+		if chance(rnd, 60) {
+			out = []string{b, a} // IPv6 entry first
+		}
+		if chance(rnd, 30) {
+			out = append(out, pick(rnd, []string{"11.0.0.0/8", "fc00::/7"}))
+		}
+		return out
+	}
+	n := 0
+	for n == 0 {
+		if chance(rnd, 45) {
+			r.SrcNet = mix(false)
+			n++
+		}
+		if chance(rnd, 35) {
+			r.DstNet = mix(false)
+			n++
+		}
+		if chance(rnd, 25) {
+			r.NotSrcNet = mix(true)
+			n++
+		}
+		if chance(rnd, 20) {
+			r.NotDstNet = mix(true)
+			n++
+		}
+	}
+	return r
+}
+
 func runC08(env tracelog.Env, log *tracelog.Log) error {
 	rnd := rand.New(rand.NewSource(env.Seed*7919 + 8))
+	caseNo := 0
 	for t := 0; t < env.N; t++ {
-		ipv := uint8(4)
+		home := uint8(4)
 		if t%3 == 2 {
-			ipv = 6
+			home = 6
 		}
-		sg := polgen.NewSetGen(rnd, ipv)
-		r := randRule(rnd, ipv, sg)
+		sg := polgen.NewSetGen(rnd, home)
+		var r *proto.Rule
+		if t%8 == 5 {
+			r = mixedRule(rnd, home, sg)
+		} else {
+			r = randRule(rnd, home, sg)
+		}
+		// the reference keeps a pristine copy: the ONE rule object below is handed to every render, as Felix hands
+		// the same *proto.Policy to the IPv4 and then the IPv6 policy manager
+		pristine := googleproto.Clone(r).(*proto.Rule)
 		cfg := baseConfig()
 		cfg.FlowLogsEnabled = chance(rnd, 40)
 		if chance(rnd, 25) {
@@ -59,29 +155,38 @@ func runC08(env tracelog.Env, log *tracelog.Log) error {
 			dir = rules.RuleDirEgress
 		}
 		untracked := chance(rnd, 10)
-		// the same rule goes through both factories: two cases
-		for _, nft := range []bool{false, true} {
-			rr := rules.NewRenderer(cfg, nft)
-			rendered, pan := renderOneRule(rr, r, ipv, owner, dir, untracked)
-			prog := nfparse.NewProgram(flavourName(nft))
-			if pan == "" {
-				ch := &generictables.Chain{Name: "rule", Rules: rendered}
-				if err := renderChain(prog, ch, ipv); err != nil {
-					return fmt.Errorf("case %d: %v", t, err)
+		// dataplane order: IPv4 table, then IPv6 table; rules with mixed-family lists are rendered for IPv4 once more
+		// (a later re-render of the same object, e.g. after an unrelated update)
+		passes := []uint8{4, 6}
+		if hasMixedNets(pristine) {
+			passes = append(passes, 4)
+		}
+		for pi, ipv := range passes {
+			fam := setsForFamily(sg.Sets(), ipv)
+			for _, nft := range []bool{false, true} {
+				rr := rules.NewRenderer(cfg, nft)
+				rendered, pan := renderOneRule(rr, r, ipv, owner, dir, untracked)
+				prog := nfparse.NewProgram(flavourName(nft))
+				if pan == "" {
+					ch := &generictables.Chain{Name: "rule", Rules: rendered}
+					if err := renderChain(prog, ch, ipv); err != nil {
+						return fmt.Errorf("case %d: %v", t, err)
+					}
+				} else {
+					prog.Chains["rule"] = []nfparse.Rule{}
 				}
-			} else {
-				prog.Chains["rule"] = []nfparse.Rule{}
+				byID, byName := setsJSON(fam, &cfg, ipv, nft)
+				deny := "drop"
+				if cfg.FilterDenyAction == "REJECT" {
+					deny = "reject"
+				}
+				log.Reset(caseNo, M{
+					"kind": "c08", "flavour": prog.Flavour, "ipv": int(ipv), "rule": semRule(pristine), "ruleNo": t, "pass": pi,
+					"ipsets": byID, "ksets": byName, "prog": prog, "marks": marksJSON(), "deny": deny,
+					"panic": pan, "nrules": len(rendered), "objectChanged": !googleproto.Equal(pristine, r),
+				})
+				caseNo++
 			}
-			byID, byName := setsJSON(sg.Sets(), &cfg, ipv, nft)
-			deny := "drop"
-			if cfg.FilterDenyAction == "REJECT" {
-				deny = "reject"
-			}
-			log.Reset(2*t+b2i(nft), M{
-				"kind": "c08", "flavour": prog.Flavour, "ipv": int(ipv), "rule": semRule(r),
-				"ipsets": byID, "ksets": byName, "prog": prog, "marks": marksJSON(), "deny": deny,
-				"panic": pan, "nrules": len(rendered),
-			})
 		}
 	}
 	return nil
